@@ -56,13 +56,14 @@ VARIABLES info,   \* m_blockfile_info: sequence, file n is element n+1
           blen,   \* length of blk file n on disk (element n+1), -1 = no such file
           rlen,   \* same for the rev files
           fault,  \* the single outstanding fault
+          reidx,  \* the block index and file info have been rebuilt from the files (-reindex) in this behaviour
           lastAct, lastRes
-vars == <<info, idx, cur, blen, rlen, fault, lastAct, lastRes>>
+vars == <<info, idx, cur, blen, rlen, fault, reidx, lastAct, lastRes>>
 
 Init == /\ info = <<>> /\ blen = <<>> /\ rlen = <<>>
         /\ idx = [b \in Blocks |-> NoIdx]
         /\ cur = [file |-> 0, uh |-> 0]
-        /\ fault = NoFault
+        /\ fault = NoFault /\ reidx = FALSE
         /\ lastAct = <<"init">> /\ lastRes = "none"
 
 Pad(s, n, v) == IF Len(s) >= n THEN s ELSE s \o [i \in 1..(n - Len(s)) |-> v]
@@ -104,7 +105,7 @@ WriteBlock(b) ==
         /\ cur' = IF roll THEN [file |-> nf, uh |-> 0] ELSE cur
         /\ idx' = [idx EXCEPT ![b] = [file |-> nf, dpos |-> pos + HDR, upos |-> 0, data |-> TRUE, undo |-> @.undo]]
         /\ lastRes' = <<nf, pos + HDR>>
-  /\ fault' = fault
+  /\ fault' = fault /\ reidx' = reidx
   /\ lastAct' = <<"wblk", b>>
 
 \* WriteBlockUndo (FindUndoPos + write + the flush heuristics)
@@ -123,7 +124,7 @@ WriteUndo(b) ==
              /\ cur' = IF ~fin /\ f = cur.file /\ H(b) > cur.uh THEN [cur EXCEPT !.uh = H(b)] ELSE cur
              /\ idx' = [idx EXCEPT ![b].upos = pos + HDR, ![b].undo = TRUE]
              /\ blen' = blen
-  /\ fault' = fault
+  /\ fault' = fault /\ reidx' = reidx
   /\ lastAct' = <<"wundo", b>> /\ lastRes' = "true"
 
 \* FlushChainstateBlockFile: FlushBlockFile(cursor file, no finalize): fsync only; FlatFileSeq::Flush opens the files
@@ -133,7 +134,7 @@ Flush ==
   /\ IF Len(info) = 0 THEN UNCHANGED <<blen, rlen>>
      ELSE /\ blen' = [blen EXCEPT ![cur.file + 1] = Max(@, 0)]
           /\ rlen' = [rlen EXCEPT ![cur.file + 1] = Max(@, 0)]
-  /\ UNCHANGED <<info, idx, cur, fault>>
+  /\ UNCHANGED <<info, idx, cur, fault, reidx>>
   /\ lastAct' = <<"flush">> /\ lastRes' = "true"
 
 \* PruneOneBlockFile(n) + UnlinkPrunedFiles({n}) for a file the cursor has left
@@ -143,8 +144,27 @@ Prune(n) ==
   /\ info' = [info EXCEPT ![n + 1] = ZeroInfo]
   /\ blen' = [blen EXCEPT ![n + 1] = -1]
   /\ rlen' = [rlen EXCEPT ![n + 1] = -1]
-  /\ UNCHANGED <<cur, fault>>
+  /\ UNCHANGED <<cur, fault, reidx>>
   /\ lastAct' = <<"prune", n>> /\ lastRes' = "none"
+
+\* -reindex: a new BlockManager (empty block index and file info, cursor at file 0) rescans blk00000.dat, blk00001.dat, ... and
+\* records every block it finds with UpdateBlockInfo(block, height, pos) instead of WriteBlock (LoadExternalBlockFile ->
+\* AcceptBlock(dbp)); ReceivedBlockTransactions records the position in the index.  Undo positions are forgotten (the rev
+\* files stay on disk and are rewritten from offset 0 as blocks are connected again).  The scan stops at the first missing
+\* file; modelled for stores without a pruned file, and once per behaviour.
+RECURSIVE Rescan(_, _)
+Rescan(S, fi) == IF S = {} THEN fi
+                 ELSE LET b == CHOOSE x \in S : TRUE IN
+                      \* UpdateBlockInfo: AddBlock; nSize = max(pos.nPos + serialized size with witness, nSize)
+                      Rescan(S \ {b}, [AddBlock(fi, H(b), Time(b)) EXCEPT !.sz = Max(idx[b].dpos + Sz(b), @)])
+Reindex ==
+  /\ fault = NoFault /\ ~reidx /\ Len(info) > 0 /\ \A n \in 1..Len(blen) : blen[n] # -1
+  /\ info' = [n \in 1..Len(info) |-> Rescan({b \in Blocks : idx[b].data /\ idx[b].file = n - 1}, ZeroInfo)]
+  /\ idx' = [b \in Blocks |-> IF idx[b].data THEN [idx[b] EXCEPT !.upos = 0, !.undo = FALSE] ELSE NoIdx]
+  /\ cur' = [file |-> Len(info) - 1, uh |-> 0]          \* the cursor follows the highest file seen; undo height starts over
+  /\ reidx' = TRUE
+  /\ UNCHANGED <<blen, rlen, fault>>
+  /\ lastAct' = <<"reindex">> /\ lastRes' = Cardinality({b \in Blocks : idx[b].data})
 
 ----
 \* Faults.  Offsets of the region boundaries of the record of block b, relative to the start of its file.
@@ -154,14 +174,14 @@ UndoOff(b, bd) == idx[b].upos + CASE bd = "start" -> -8 [] bd = "size" -> -4 [] 
                                   [] bd = "last" -> USz(b) + CHK - 1 [] bd = "end" -> USz(b) + CHK
 
 Flip(k, b, r) ==
-  /\ "flip" \in FaultKinds /\ fault = NoFault
+  /\ "flip" \in FaultKinds /\ fault = NoFault /\ ~reidx
   /\ IF k = "blk" THEN idx[b].data /\ r \in BlkRegions ELSE idx[b].undo /\ r \in UndoRegions
   /\ fault' = [t |-> "flip", k |-> k, b |-> b, r |-> r, sv |-> 0]
-  /\ UNCHANGED <<info, idx, cur, blen, rlen>>
+  /\ UNCHANGED <<info, idx, cur, blen, rlen, reidx>>
   /\ lastAct' = <<"flip", k, b, r>> /\ lastRes' = "none"
 
 Trunc(k, b, bd) ==
-  /\ "trunc" \in FaultKinds /\ fault = NoFault
+  /\ "trunc" \in FaultKinds /\ fault = NoFault /\ ~reidx
   /\ IF k = "blk"
      THEN /\ idx[b].data /\ bd \in BlkBounds
           /\ fault' = [t |-> "trunc", k |-> k, b |-> b, r |-> bd, sv |-> blen[idx[b].file + 1]]
@@ -171,7 +191,7 @@ Trunc(k, b, bd) ==
           /\ fault' = [t |-> "trunc", k |-> k, b |-> b, r |-> bd, sv |-> rlen[idx[b].file + 1]]
           /\ rlen' = [rlen EXCEPT ![idx[b].file + 1] = UndoOff(b, bd)]
           /\ blen' = blen
-  /\ UNCHANGED <<info, idx, cur>>
+  /\ UNCHANGED <<info, idx, cur, reidx>>
   /\ lastAct' = <<"trunc", k, b, bd>> /\ lastRes' = "none"
 
 Restore ==
@@ -179,12 +199,13 @@ Restore ==
   /\ blen' = IF fault.t = "trunc" /\ fault.k = "blk" THEN [blen EXCEPT ![idx[fault.b].file + 1] = fault.sv] ELSE blen
   /\ rlen' = IF fault.t = "trunc" /\ fault.k = "rev" THEN [rlen EXCEPT ![idx[fault.b].file + 1] = fault.sv] ELSE rlen
   /\ fault' = NoFault
-  /\ UNCHANGED <<info, idx, cur>>
+  /\ UNCHANGED <<info, idx, cur, reidx>>
   /\ lastAct' = <<"restore">> /\ lastRes' = "none"
 
 Next ==
   \/ \E b \in Blocks : WriteBlock(b) \/ WriteUndo(b)
   \/ Flush
+  \/ Reindex
   \/ \E n \in 0..MaxFile : Prune(n)
   \/ \E b \in Blocks : (\E r \in BlkRegions : Flip("blk", b, r)) \/ (\E r \in UndoRegions : Flip("rev", b, r))
   \/ \E b \in Blocks : (\E bd \in BlkBounds : Trunc("blk", b, bd)) \/ (\E bd \in UndoBounds : Trunc("rev", b, bd))
@@ -287,8 +308,8 @@ WritePosOK == [][lastAct'[1] = "wblk" => LET b == lastAct'[2] IN
 \* projection compared with the implementation; `disk` (file lengths: pre-allocation / finalization) is bookkeeping, `hid`
 \* (cursor, outstanding fault) is not observable and only makes the projection injective
 Proj == [conf |-> Conf, info |-> info, idx |-> idx, reads |-> Reads, disk |-> [blk |-> blen, rev |-> rlen],
-         hid |-> [cur |-> cur, fault |-> fault]]
-View0 == <<info, idx, cur, blen, rlen, fault>>
+         hid |-> [cur |-> cur, fault |-> fault, reidx |-> reidx]]
+View0 == <<info, idx, cur, blen, rlen, fault, reidx>>
 Emit == VFEdge(Proj, lastAct', lastRes', Proj')
 
 \* named configurations (size classes: record = block + 8; A = 0x8000, B = 0x7fff, C = 0x8001, F = 0xffff, X = 0x10000, Y > 64 KiB, S small)
